@@ -324,8 +324,10 @@ def run(prog: Program, rep: Report, tier: str):
              "abstraction: for every persistent state the same effects and the same was_copied / was_deleted")
     summaries = {}
     for rel, fname in FUNCS:
-        fi = prog.func(rel, fname)
-        m = Model(prog, fi)
+        # the unzip helpers are effects of the table (COPY into the destination), not code to look into
+        progk = prog.keeping("unzip", "unzip_batched_zips", "unzip_imagefolder_classwise", "run_unzip_jobs")
+        fi = progk.func(rel, fname)
+        m = Model(progk, fi)
         rep.require(m.dst and m.start and m.end, f"anchor-missing: destination / marker paths in {fname}")
         kinds = sorted({k[0] for k in m.kind.values()})
         rep.require({"mkdir", "create-start", "create-end", "copy"} <= set(kinds),
